@@ -127,6 +127,21 @@ def check_string(ctx, s, sep=None):
     if _glue(p.label, esep, p.gf, p.gapindex, p.coindex, p.headmarker) != r0:
         _fail('format-layout', case, 'format gives %r, parts %r'
               % (r0, (p.label, p.gf, p.gapindex, p.coindex, p.headmarker)))
+    # ... and with the flags that ask for the default literals
+    for flags in ({'always_label': True}, {'always_gf': True},
+                  {'always_label': True, 'always_gf': True}):
+        try:
+            rf = T.format_label(p, **flags)
+        except Exception as exc:
+            _fail('format-raises', case, 'format_label(%r) raised %r'
+                  % (flags, exc))
+            break
+        if rf != _glue(p.label, esep, p.gf, p.gapindex, p.coindex,
+                       p.headmarker, **flags):
+            _fail('format-layout-flags', case, 'format_label(parse(%r), %s) '
+                  'gives %r, parts %r' % (s, sorted(flags), rf, (
+                      p.label, p.gf, p.gapindex, p.coindex, p.headmarker)))
+            break
     # the function is what follows the first separator
     if p.gf != '--' and not s.startswith(p.label + esep + p.gf):
         _fail('gf-not-after-first-separator', case,
